@@ -14,7 +14,8 @@ CHECKS = {
         "Every integer below 253^3 and every byte string of length <= 3 is enumerated (quick); the "
         "thorough tier enumerates all 253^4 integers. Encode is compared with a positional model, "
         "decode with the documented formula, plus round trip and k-byte prefix; drawn call sequences check that an "
-        "encoding does not depend on earlier calls. Exhaustive over the "
+        "encoding does not depend on earlier calls; spot checks in fresh interpreters under -O/-OO and as the "
+        "library's first calls issued by eight threads. Exhaustive over the "
         "stated ranges, sampled (stratified + random) for 4-byte values in the quick tier.",
         "Trusted: the harness' positional model (pinned by the repository's 24 vectors).",
         "DESIGN.md 5/C07",
@@ -49,7 +50,8 @@ CHECKS = {
         "(500,755 leaves on the pinned tree); each leaf: no exception, documented value range, field fit, "
         "reconstruction by the matching from-values constructor. Exhaustive in both tiers; exits 2 if a "
         "generate() makes no observable draw. A second pass visits contiguous first-draw blocks ascending and "
-        "descending inside one process so that state kept between generate() calls shows.",
+        "descending inside one process so that state kept between generate() calls shows; 300 real generate() "
+        "calls per kind run under python -O and -OO.",
         "Trusted: generate() draws only through the random module functions that are substituted "
         "(anything else is a harness error, not a pass).",
         "DESIGN.md 5/C12",
@@ -119,7 +121,8 @@ CHECKS = {
         "slices of slices, documented ValueErrors), compared after every operation (value/exception type, "
         "position, remaining, mode of every reader in the pool, bounds) with a cache-free reference reader, under "
         "two sentinel patterns; plus 5,120 / 100,000 Hypothesis histories of up to 50 ops over 0-64 arbitrary "
-        "bytes. Exhaustive over the stated bound, sampled beyond.",
+        "bytes, and chunked readers over chunks of EVERY length 0..8200 (and around 2^14..2^17). Exhaustive over the "
+        "stated bounds, sampled beyond.",
         "Trusted: RefReader (pinned by the repository's reader scripts); the tree walk assumes reader state lives "
         "in the instance __dict__ (cross-checked by from-scratch re-runs).",
         "DESIGN.md 5/C05",
@@ -138,7 +141,8 @@ CHECKS = {
         "Full 256-value sweep at every position of lengths 1..8, every string of length <= 5 (quick) / <= 7 "
         "(thorough) over a 10-symbol boundary alphabet, and Hypothesis strings up to 2048 bytes: length preserved, "
         "two-way round trip except at 0x7E, bytes outside 22..7E only move to the mirrored index, inside land in "
-        "21..7D, 00/FF multiset preserved; plus equality with an independent per-byte table. Exhaustive over the "
+        "21..7D, 00/FF multiset preserved; plus equality with an independent per-byte table; patterned strings up "
+        "to 2 MiB; fresh interpreters under -O/-OO and with eight threads as first use. Exhaustive over the "
         "stated sets, sampled for long strings.",
         "Trusted: the table in vlib/refcodec.py (restates the property; pinned by the repository's 6 vectors).",
         "DESIGN.md 5/C08",
@@ -146,7 +150,7 @@ CHECKS = {
     "C09": (
         "Hypothesis op-list writer histories interpreted step by step against a reference writer twin",
         "16k / 200k histories of 1-40 steps over every add_* method and the mode setter (integers in range, at the "
-        "limit, far beyond; strings with length arguments below/at/above len, padded both ways): a write the "
+        "limit, far beyond, beyond float range; strings with length arguments below/at/above len, padded both ways): a write the "
         "reference rejects must raise ValueError and leave contents and length unchanged; an accepted write must "
         "append exactly the reference's bytes; the mode reads back as set. Sampled.",
         "Trusted: RefWriter (vlib/refio.py), written from the property statement.",
@@ -158,7 +162,8 @@ CHECKS = {
         "interleave/deinterleave permutations observed for every length 0..2048 (quick) / 0..20000 (thorough); "
         "flip_msb on all 256 values; swap_multiples on all divisibility patterns of length <= 12 for nine multiples; "
         "Hypothesis data from drawn run layouts, multiples 0..300 / large / negative, and operation pipelines undone "
-        "by inverse pipelines. Exhaustive over the stated bounds, sampled beyond.",
+        "by inverse pipelines; fresh interpreters under -O/-OO and with eight threads as first use. Exhaustive over "
+        "the stated bounds, sampled beyond.",
         "Trusted: the weave and run-reversal models in the check (from the docstrings; pinned by the repository's "
         "vectors); negative multiple 'rejected' is read as ValueError.",
         "DESIGN.md 5/C10",
@@ -169,7 +174,8 @@ CHECKS = {
         "Drawn IntEnum declarations (1-8 members, boundary/negative/huge ordinals) using the real ProtocolEnumMeta x "
         "sequences of 1-24 constructions mixing declared and undeclared values (bools, beyond 2^64), every clause "
         "(identity for declared, isinstance/eq/hash/name/value/int/dict-key for undeclared, member set unchanged) "
-        "checked after every step; every integer 0..64008 for 8 fixed and several drawn enums. Part (b): the enum "
+        "checked after every step, also on a twin class, beside a sibling enum, under a member-less base and after "
+        "short-lived enum classes have been collected; every integer 0..64008 for 8 fixed and several drawn enums. Part (b): the enum "
         "classes of ~640 (quick) / ~8000 (thorough) generated protocol packages go through the same oracle; "
         "read-then-write of unknown ordinals is exercised by C01/C03.",
         "Trusted: Python int semantics as the model.",
@@ -202,7 +208,7 @@ CHECKS = {
         "instances are attacked through every public property (setattr/delattr on members, <switch>_data, "
         "byte_size, recursively into nested instances) and by mutating the caller's lists; every attempt must raise "
         "AttributeError, arrays must be tuples unaffected by the caller (lists, generators, read-only sequence "
-        "views, tuples), serialize before/after must agree, and nothing reachable from a deserialised instance may "
+        "views, tuples), serialize before/after must agree and must leave every field as it was, and nothing reachable from a deserialised instance may "
         "change when other data is deserialised later. "
         "Sampled: ~2k trees / ~10k instances / ~400k setattr attempts quick.",
         "Trusted: nothing beyond the generator of inputs; private attributes and caller-owned bytearrays for blobs "
